@@ -13,6 +13,8 @@ import StatsCI.Driver.PropOps
 import StatsCI.Driver.ProgOps
 import StatsCI.Driver.RelOps
 import StatsCI.Driver.CoverOps
+import StatsCI.Driver.CritOps
+import StatsCI.Driver.SerdeOps
 
 namespace StatsCI.Driver
 open StatsCI
@@ -87,7 +89,13 @@ partial def evalLine0 (prop op : String) (args : List String) : Option OpEval :=
             | none =>
               match relOps op ty rest with
               | some e => some e
-              | none => coverOps op ty rest
+              | none =>
+                match coverOps op ty rest with
+                | some e => some e
+                | none =>
+                  match critOps op ty rest with
+                  | some e => some e
+                  | none => serOps op ty rest
 
 end
 
@@ -167,6 +175,9 @@ def main (args : List String) : IO UInt32 := do
   match args with
   | ["need"] => needLoop stdin; return 0
   | _ =>
+    let sc := RefDist.selfCheck
+    IO.println s!"INFO 0 refdist_selfcheck={sc}"
+    if !(sc ≤ 1e-13) then IO.println "BAD 0 reference CDF self-check failed"
     let st ← evalLoop stdin {} 1
     IO.println s!"SUMMARY total={st.total} ok={st.ok} bitexact={st.bitExact} diff={st.diff} prop={st.prop} bad={st.bad} oracle_skipped={st.skipped}"
     return 0
